@@ -48,7 +48,11 @@ pub fn gen_unknown(rng: &mut Rng, n_events_hint: usize, max_codes: u64) -> Vec<U
             1 + rng.below(6) as usize
         };
         let after: Vec<u32> = (0..ninst).map(|_| rng.below(n_events_hint.max(1) as u64 + 2) as u32).collect();
-        v.push(UnknownEv { code, size, after, pseed: rng.next_u64() });
+        // from 3.3 on anything longer than a transfer block travels through Message Splitter blocks, as the Gecko
+        // list does (the recorder model ignores the flag below 3.3)
+        let split = rng.chance(1, 5);
+        let size = if split && !edge && rng.chance(2, 3) { *rng.pick(&[513u16, 700, 1024, 1025, 1536, 3000, 512]) } else { size };
+        v.push(UnknownEv { code, size, after, pseed: rng.next_u64(), split });
     }
     v
 }
@@ -111,6 +115,18 @@ pub fn gen(seed: u64, tier: Tier) -> ScenarioSpec {
     if rng.chance(1, 2) {
         rec.irregular.perm_pseed = Some(rng.next_u64());
     }
+    // "any accepted game": metadata shapes at the edge of what the reader accepts (many maps, deepest chain)
+    match rng.below(40) {
+        0 => {
+            let n = 100 + rng.usize_below(300);
+            rec.metadata = Some(gen::gen_many_maps(&mut rng, n));
+        }
+        1 => {
+            let d = 100 + rng.below(27) as u32;
+            rec.metadata = Some(gen::gen_chain(&mut rng, d));
+        }
+        _ => {}
+    }
     let len = gen::approx_len(&rec);
     let mut spec = gen::base_spec(P, "S1", seed, rec);
     spec.stream = gen::gen_stream(&mut rng, len, false);
@@ -133,7 +149,7 @@ pub fn run(spec: &ScenarioSpec, ctx: &mut Ctx) -> Result<(), Violation> {
     ctx.rep.sim_time_ns += m.sim_time_ns();
     shape_of_model(ctx, &m, spec);
     let irr = &spec.recorder.irregular;
-    let has_unknown = m.events.iter().any(|e| e.what == recorder::What::Unknown);
+    let has_unknown = m.events.iter().any(|e| matches!(e.what, recorder::What::Unknown | recorder::What::SplitUnknown { .. }));
     ctx.shape("irr", has_unknown as u64 | ((irr.junk_after_end > 0) as u64) << 1 | (irr.perm_pseed.is_some() as u64) << 2);
     ctx.probe_if(has_unknown, "unknown events in the stream");
     ctx.probe_if(irr.junk_after_end > 0 && m.end.is_some(), "junk after Game End inside the raw element");
